@@ -31,7 +31,7 @@ def all_orders(sys, cap=720):
 
 
 def run(ctx):
-    n = ctx.scale(70, 900)
+    n = ctx.scale(55, 900)
     systems = [(pc.witness_early_exit(), {"family": "witness"}), (pc.witness_real_position_skip(), {"family": "witness"}),
            (pc.witness_volume_bound(), {"family": "witness"})]
     for s in pc.small_systems()[1:: ctx.scale(4, 1)]:
